@@ -531,4 +531,46 @@ theorem versionForPackage_single (b : Bool) (s : Str) (h : ∀ c ∈ s, c ≠ '.
   · rfl
   · simp [splitDots_no_dot s h]
 
+/-! ### grammar REJECTION (used by the planting theorems of C05: "bad name ⇒ annotation") -/
+
+/-- a name containing a delimiter (underscore, '.', '-', space, tab, CR, LF) is never a fixpoint
+    of ToPascalCase -/
+theorem toPascalCase_ne_of_delim (s : Str) (c : Char) (hc : c ∈ s) (hd : isDelimiter c = true) :
+    toPascalCase s ≠ s := by
+  intro e
+  have := pascalGo_no_delim true (trimSpace s) c (by unfold toPascalCase at e; rw [e]; exact hc)
+  simp [this] at hd
+
+/-- a name starting with a lower-case letter is never a fixpoint of ToPascalCase -/
+theorem toPascalCase_ne_of_lower_first (c : Char) (cs : Str) (hl : isLower c = true) :
+    toPascalCase (c :: cs) ≠ c :: cs := by
+  intro e
+  have hsp : isSpace c = false := alnum_not_space c (lower_alnum c hl)
+  have hdl : isDelimiter c = false := alnum_not_delim c (lower_alnum c hl)
+  unfold toPascalCase trimSpace trimBoth at e
+  rw [List.dropWhile_cons_of_neg (by simp [hsp])] at e
+  obtain ⟨r, hr⟩ := dropEnd_cons_of_not isSpace c cs hsp
+  rw [hr] at e
+  simp only [pascalGo, hdl, Bool.true_or] at e
+  simp at e
+  exact toUpper_ne_of_lower c hl e.1
+
+/-- a name containing an upper-case letter is never a fixpoint of ToLowerSnakeCase -/
+theorem toLowerSnakeCase_ne_of_upper (b : Bool) (s : Str) (c : Char) (hc : c ∈ s) (hu : isUpper c = true) :
+    toLowerSnakeCase b s ≠ s := by
+  intro e
+  rw [← e] at hc
+  unfold toLowerSnakeCase at hc
+  obtain ⟨y, _, rfl⟩ := List.mem_map.mp hc
+  simp [isUpper_toLower] at hu
+
+/-- a name containing a lower-case letter is never a fixpoint of ToUpperSnakeCase -/
+theorem toUpperSnakeCase_ne_of_lower (b : Bool) (s : Str) (c : Char) (hc : c ∈ s) (hl : isLower c = true) :
+    toUpperSnakeCase b s ≠ s := by
+  intro e
+  rw [← e] at hc
+  unfold toUpperSnakeCase at hc
+  obtain ⟨y, _, rfl⟩ := List.mem_map.mp hc
+  simp [isLower_toUpper] at hl
+
 end BufModel.Case
